@@ -32,6 +32,7 @@ META = {
                     "bounded recovery as in C07 (12 rounds)"],
 }
 REQUIRED_ORACLES = ["counter-agreement", "continuity", "no-number-reuse", "no-spurious-resend", "kill-points"]
+REQUIRED_COUNTERS = ["receivers_stopped_while_their_handler_was_suspended", "original_transmissions_with_explicit_possdup_n"]
 NSHARDS = 16
 NHIST = {"quick": 10, "thorough": 150}
 KILL_STRIDE = {"quick": 2, "thorough": 1}
